@@ -289,8 +289,8 @@ theorem inputFrags_zwe (hp : PreKeeps cfg Q) (lineno : Nat) (frs : List Frag)
       · exact h1
       · exact ih hrest _ h1
 
-theorem hscrollDrop_sub (wc : Char → Int) (h : Int) (l : List Frag) :
-    ∀ f ∈ (hscrollDrop wc h l).2, f ∈ l := by
+theorem hscrollDrop_sub (dw : Text → Nat) (h : Int) (l : List Frag) :
+    ∀ f ∈ (hscrollDrop dw h l).2, f ∈ l := by
   induction l generalizing h with
   | nil => simp [hscrollDrop]
   | cons g rest ih =>
@@ -406,7 +406,7 @@ theorem copyBody_zwe_origin (cfg : CopyCfg) (P : Char → Prop) (buf : Buf) (zwe
 /-! ### non-vacuity: a concrete hostile line through the real table -/
 
 def exCfg : CopyCfg :=
-  { m := Gen.C10.displayMappings, wc := Gen.C10.wcwidth,
+  { m := Gen.C10.displayMappings, wc := Gen.C10.wcwidth, printable := Gen.C10.isPrintable,
     dflt := mkCell Gen.C10.displayMappings Gen.C10.wcwidth [' '] "[transparent]".toList,
     xpos := 0, ypos := 0, width := 6, height := 2, wrap := true, hscroll := 0, align := 0, pre := none }
 
@@ -432,10 +432,11 @@ example : BufClean (copyBody exCfg [] [] [exLine] 0 0).buf :=
 -- observed quirk, exhibited by the model and replayed on the real code by the harness
 -- (corpus/C10/hscroll-cuts-marked-escape.json): horizontal scrolling explodes ALL fragments,
 -- including a marked one, and drops leading characters, so only the TAIL of a marked escape
--- sequence is stored for the raw writer (here `7 BEL` without its `ESC ]`).
+-- sequence is stored for the raw writer (here `]7 BEL` without its ESC, which since 9db5f12 counts
+-- with its display width 2 in the skip loop, so `x` ends at column 1).
 example :
     (copyBody { exCfg with hscroll := 1, wrap := false } [] []
       [[(zweMarker, [ESC, ']', '7', Char.ofNat 7]), ([], ['z'])]] 0 0).zwe =
-      [((0, 0), ['7', Char.ofNat 7]), ((0, 0), ['7'])] := by decide +kernel
+      [((0, 1), [']', '7', Char.ofNat 7]), ((0, 1), [']', '7']), ((0, 1), [']'])] := by decide +kernel
 
 end Ptk.C10
